@@ -435,6 +435,7 @@ class ProgGen:
         self.nlab = 0
         self.features = set()
         self.load_sites = []
+        self.in_realloc = False
 
     # -- emission
     def emit(self, c, *ops):
@@ -499,9 +500,13 @@ class ProgGen:
             kinds.append("mov")
         if depth > 0:
             kinds += ["if", "if", "ifelse", "loop", "tgt-gate", "tgt-gate", "tgt-gate"]
+        if depth == 2 and self.nq >= 3 and not self.in_realloc:
+            kinds += ["realloc", "realloc"]
         k = rng.choice(kinds)
         if k == "tgt-gate":
             return self.gate_as_target(depth)
+        if k == "realloc":
+            return self.free_and_realloc()
         if k == "g1":
             cs = [c for c in GATE1 if c not in self.exclude]
             qr = self.qreg()
@@ -588,6 +593,69 @@ class ProgGen:
             self.features.add("loop")
         else:
             self.stmt(depth)
+
+    def free_and_realloc(self):
+        """A qubit is allocated and used through a dedicated Q register, freed, and later re-allocated
+        and used through the SAME register WITHOUT a new `set` (registers persist; `qfree` does not write
+        its register), with at least one carbon-carbon gate in between: the register stays live across the
+        gate although its qubit is gone. The register is the lowest one the other statements never touch
+        (Q2 in SDK-register style, else Q4), i.e. the one `get_unused_register` would hand out next if it
+        were not in use."""
+        rng = self.rng
+        self.in_realloc = True
+        k = 2 if self.sdk_regs else 4
+        qid = rng.randrange(1, self.nq)
+        self.emit("core.SetInstruction", reg(Q, k), imm(qid))
+        self.emit("core.QAllocInstruction", reg(Q, k))
+        self.emit("core.InitInstruction", reg(Q, k))
+        self.emit(rng.choice(GATE1), reg(Q, k))
+        for _ in range(rng.choice([0, 1])):
+            self.stmt(1)
+        self.emit("core.QFreeInstruction", reg(Q, k))
+
+        def cc():
+            a = rng.randrange(1, self.nq)
+            b = rng.choice([x for x in range(1, self.nq) if x != a])
+            qa = self.qreg()
+            qb = self.qreg(avoid=(qa,))
+            self.emit("core.SetInstruction", reg(Q, qa), imm(a))
+            self.emit("core.SetInstruction", reg(Q, qb), imm(b))
+            self.emit(rng.choice(["vanilla.CnotInstruction", "vanilla.CphaseInstruction"]), reg(Q, qa), reg(Q, qb))
+            self.features.add("cc")
+        shape = rng.choice(["plain", "plain", "loop", "if"])
+        if shape == "loop":
+            cnt, lim = 9, 12
+            top, end = self.new_label(), self.new_label()
+            self.emit("core.SetInstruction", reg(R, cnt), imm(0))
+            self.emit("core.SetInstruction", reg(R, lim), imm(rng.randrange(1, 3)))
+            self.place(top)
+            self.emit("core.BgeInstruction", reg(R, cnt), reg(R, lim), {"lab": end})
+            cc()
+            self.emit("core.AddInstruction", reg(R, cnt), reg(R, cnt), reg(R, 14))
+            self.emit("core.JmpInstruction", {"lab": top})
+            self.place(end)
+        elif shape == "if":
+            end = self.new_label()
+            self.emit(rng.choice(BR2), reg(R, rng.randrange(6)), reg(R, rng.randrange(3)), {"lab": end})
+            cc()
+            self.place(end)
+            cc()
+        else:
+            cc()
+            for _ in range(rng.choice([0, 1])):
+                self.stmt(0)
+        # the register still holds qid: re-allocate and use the qubit through it, no new `set`
+        self.emit("core.QAllocInstruction", reg(Q, k))
+        self.emit("core.InitInstruction", reg(Q, k))
+        self.emit(rng.choice(GATE1), reg(Q, k))
+        if rng.random() < 0.5:
+            cc()
+            self.emit(rng.choice(GATE1), reg(Q, k))
+        if rng.random() < 0.5:
+            self.emit("core.MeasInstruction", reg(Q, k), reg(M, rng.randrange(3)))
+        self.emit("core.QFreeInstruction", reg(Q, k))
+        self.features.add("free-then-realloc-same-register")
+        self.in_realloc = False
 
     def gate_as_target(self, depth):
         """A branch/jump whose TARGET is the gate itself (not the `set`s before it): the gate as the
